@@ -35,6 +35,8 @@ func init() {
 			"on the planning side a field's name and alias are taken from the same operation field wherever a response field is built, the duplicate check uses the same (name, alias) identity as the construction, fragment fields are de-duplicated by the response key, and the merge path of resolver / @requires calls ends in the response key; every call kind is compiled, and a call is merged by path exactly when its plan carries a response path; " +
 			"the code reachable from DataSource.Load never stores into plan-owned memory (no assignment through plan pointers, no append onto a slice that aliases the plan), so concurrent requests on one cached plan cannot change each other's shape; both consumers of the plan test the list wrapper before the optional-scalar wrapper (a nullable scalar list satisfies both predicates). It does not decide the value-level equality of responses under reformulation.",
 		Mutants: []Mutant{
+			{Name: "enclosing type resolved in the operation document by the gRPC plan visitor", File: "v2/pkg/engine/datasource/grpc_datasource/execution_plan_visitor.go", Rule: "C20-R10", Key: "rpcPlanVisitor.EnterField/Node.NameString#2",
+				Old: "\tfield, err := r.planCtx.buildField(\n\t\tr.walker.EnclosingTypeDefinition.NameString(r.definition),\n\t\tfieldDefRef,", New: "\tfield, err := r.planCtx.buildField(\n\t\tr.walker.EnclosingTypeDefinition.NameString(r.operation),\n\t\tfieldDefRef,"},
 			{Name: "list-position converter loses the bytes arm", File: c20JSONGo, Rule: "C20-R1", Key: "object-vs-list",
 				Old: "\tcase protoref.BytesKind:\n\t\tarray.SetArrayItem(j.jsonArena, index, astjson.StringValueBytes(j.jsonArena, data.Bytes()))\n", New: ""},
 			{Name: "uint64 no longer converted in object position", File: c20JSONGo, Rule: "C20-R1", Key: "setJSONValue/covers",
@@ -98,6 +100,8 @@ func runC20(r *fw.Run) {
 		r.Error("package grpc_datasource not loaded")
 		return
 	}
+	r.Rule("C20-R10", "in every gRPC planner visitor a node is looked up only in the document it came from: a definition node (Walker.EnclosingTypeDefinition, TypeDefinitions, a lookup in the definition) is never handed to a method of the operation document, nor the other way round")
+	documentProvenance(r, "C20-R10", []string{"grpcds"}, 11)
 	r.Assume = append(r.Assume,
 		"C20-R8: one DataSource (and so one RPCExecutionPlan) serves concurrent and repeated Load calls; the RPCCall structs themselves are copied per Load by NewDependencyGraph (stores to their own fields are not flagged), everything behind their slices and pointers is shared",
 		"C20-R8: a *RPCMessage / *RPCField / *ListMetadata that is not created in the function and is not a parameter fed only with addresses of local copies is assumed to point into the plan",
